@@ -171,7 +171,8 @@ def newline_cases(tier):
 
 
 def concat_cases(tier):
-    pieces = ["'s'", "u'u'", "b'b'", "r'\\r'", "rb'\\d'", "'''t\n'''", '"q"', "U'V'"]
+    # the last five: variable-length (octal) escapes at the seam of two pieces must not combine across it
+    pieces = ["'s'", "u'u'", "b'b'", "r'\\r'", "rb'\\d'", "'''t\n'''", '"q"', "U'V'", "'\\0'", "'1'", "'\\12'", "b'\\1'", "b'7'"]
     for k in (2, 3):
         for t in itertools.product(pieces, repeat=k):
             yield 'concatenation', ' '.join(t)
@@ -285,7 +286,7 @@ def run(tier, seed):
     total.nontrivial = total.validated
     rule = ('escapes: \\c for all 128 ASCII c and 12 non-ASCII x %d prefix spellings x 4 quote styles; all \\xHH (+ malformed); all octal escapes 0..0o777 in 1/2/3-digit spellings x 5 followers; '
             'all 65536 \\uXXXX; \\U at plane boundaries/surrogates/limits; \\N{name} for %s character name known to unicodedata (+ aliases, malformed forms); backslash-newline x LF/CRLF/CR; raw-quote rule; '
-            'every prefix string of <=3 letters over rbufRBUF; every triple-quoted body of length<=%d over {a, LF, CR, backslash}; all pairs/triples of 8 literal kinds; every string of length<=%d over the '
+            'every prefix string of <=3 letters over rbufRBUF; every triple-quoted body of length<=%d over {a, LF, CR, backslash}; all pairs/triples of 13 literal kinds (incl. short octal escapes at the seam); every string of length<=%d over the '
             'number alphabet %r; integers 2^k, 2^k+-1 (k<=4096) and 10^k+-1 in four bases with underscores; floats m*10^e and the exact midpoints of adjacent doubles at binade boundaries; '
             'states = distinct literals; non-trivial = literals CPython accepts whose value was compared'
             % (len(KINDS), 'every' if tier == 'thorough' else 'every 7th', 5 if tier == 'thorough' else 4, n, ''.join(NUM_SIGMA)))
